@@ -89,6 +89,7 @@ func batchMain(args []string) {
 	refdir := fs.String("refdir", "", "reference cache directory")
 	racelog := fs.String("racelog", "", "GORACE log_path prefix (race builds)")
 	samples := fs.Int("samples", 2, "emit the full spec and decisions of the first N runs")
+	specOnly := fs.Bool("speconly", false, "print the generated run specs without executing them")
 	free := fs.Bool("free", false, "run the tasks free (no scheduler, real parallelism): un-simulated supplementary pass")
 	fs.Parse(args)
 
@@ -169,6 +170,12 @@ func batchMain(args []string) {
 	for i := 0; i < count; i++ {
 		seed := start + uint64(i)
 		sp := genSpec(c, pl, *mode, *tier, seed, cen.FailSites)
+		if *specOnly {
+			b, _ := json.Marshal(map[string]any{"seed": seed, "spec": sp})
+			w.Write(b)
+			w.WriteByte('\n')
+			continue
+		}
 		prefixSeeds = append([]uint64(nil), executed...)
 		r := runOne(sp, nil, i < *samples)
 		executed = append(executed, seed)
